@@ -378,12 +378,15 @@ structure AddSpec (est : Nat → Int) (l : Lfu) (key : Nat) (cost : Int) (R : Ad
   /-- the eviction loop follows the sampled-LFU rule at every iteration -/
   iters : ∀ it ∈ R.log, IterOK est (est key) it
   victims_log : R.log ≠ [] → R.victims = some (R.log.filterMap (·.victim))
+  victims_eq : ∀ vs, R.victims = some vs → vs = R.log.filterMap (·.victim)
   reject_iff : cost ≤ l.maxCost → l.costs.get key = none → l.roomLeft cost < 0 → R.stuck = false →
     (R.added = false ↔ ∃ it ∈ R.log, it.victim = none)
   only_released : ∀ j, j ≠ key → R.lfu.costs.get j = none ∨ R.lfu.costs.get j = l.costs.get j
   released : ∀ it ∈ R.log, ∀ v, it.victim = some v → v.1 ≠ key → R.lfu.costs.get v.1 = none
   only_victims : ∀ j, j ≠ key → (l.costs.get j).isSome → R.lfu.costs.get j = none →
     ∃ it ∈ R.log, ∃ vc, it.victim = some (j, vc)
+  /-- a new key that is not admitted is not charged -/
+  refused : R.added = false → l.costs.get key = none → R.lfu.costs.get key = none
 
 theorem policyAdd_spec (l : Lfu) (est : Nat → Int) (key : Nat) (cost : Int)
     (refills : List (List (Nat × Int))) (hinv : l.Inv) :
@@ -392,8 +395,8 @@ theorem policyAdd_spec (l : Lfu) (est : Nat → Int) (key : Nat) (cost : Int)
   by_cases hbig : cost > l.maxCost
   · simp only [hbig, if_true]
     exact ⟨hinv, rfl, fun _ => ⟨rfl, rfl, rfl⟩, fun h => by omega, fun h => by omega, by simp,
-      by simp, by simp, fun h => by omega, fun j _ => Or.inr rfl, by simp,
-      fun j _ hs hn => by rw [hn] at hs; cases hs⟩
+      by simp, by simp, by simp, fun h => by omega, fun j _ => Or.inr rfl, by simp,
+      (fun j _ hs hn => by rw [hn] at hs; cases hs), fun _ h => h⟩
   · simp only [hbig, if_false]
     cases hg : l.costs.get key with
     | some prev =>
@@ -405,7 +408,7 @@ theorem policyAdd_spec (l : Lfu) (est : Nat → Int) (key : Nat) (cost : Int)
       rw [hu] at hinv'
       simp only [hu]
       refine ⟨hinv', rfl, fun h => absurd h hbig, ?_, (fun _ h => by rw [hg] at h; cases h), by simp,
-        by simp, by simp, (fun _ h => by rw [hg] at h; cases h), ?_, by simp, ?_⟩
+        by simp, by simp, by simp, (fun _ h => by rw [hg] at h; cases h), ?_, by simp, ?_, ?_⟩
       · intro _ _
         refine ⟨rfl, rfl, by simp, ?_⟩
         intro j hj; simp [hj]
@@ -413,6 +416,7 @@ theorem policyAdd_spec (l : Lfu) (est : Nat → Int) (key : Nat) (cost : Int)
       · intro j hj hs hn
         simp only [KMap.get_set, hj, if_false] at hn
         rw [hn] at hs; cases hs
+      · intro _ h0; rw [hg] at h0; cases h0
     | none =>
       have hu : l.update key cost = (l, false, []) := by simp [Lfu.update, hg]
       simp only [hu]
@@ -420,7 +424,7 @@ theorem policyAdd_spec (l : Lfu) (est : Nat → Int) (key : Nat) (cost : Int)
       · simp only [hroom, if_true]
         refine ⟨Lfu.increment_inv l key cost hinv hg, rfl, fun h => absurd h hbig,
           (fun _ h => by obtain ⟨x, hx⟩ := h; rw [hg] at hx; cases hx), ?_, ?_,
-          by simp, by simp, (fun _ _ h => by omega), ?_, by simp, ?_⟩
+          by simp, by simp, by simp, (fun _ _ h => by omega), ?_, by simp, ?_, (by simp)⟩
         · intro _ _ _
           refine ⟨rfl, rfl, by simp [Lfu.increment], ?_⟩
           intro j hj; simp [Lfu.increment, hj]
@@ -436,8 +440,9 @@ theorem policyAdd_spec (l : Lfu) (est : Nat → Int) (key : Nat) (cost : Int)
           (by simp) (by simp) (by simp) (by simp)
         refine ⟨hs.inv, hs.maxCost, fun h => absurd h hbig,
           (fun _ h => by obtain ⟨x, hx⟩ := h; rw [hg] at hx; cases hx), fun _ _ h => absurd h hroom, ?_,
-          hs.iters, fun _ => hs.victims, fun _ _ _ hst => hs.reject_iff hst, hs.only_released, hs.released,
-          hs.only_victims⟩
+          hs.iters, fun _ => hs.victims, (fun vs hv => by rw [hs.victims] at hv; exact (Option.some.inj hv).symm),
+          fun _ _ _ hst => hs.reject_iff hst, hs.only_released, hs.released, hs.only_victims,
+          fun ha _ => hs.refused ha⟩
         intro ha
         exact ⟨(hs.admitted ha).1, (hs.admitted ha).2.1, hg⟩
 
